@@ -163,3 +163,63 @@ c20_realnum_pair!(c20_realnum_pair_2x2, thorough, 8, 2, 2);
 c20_decimal_pair!(c20_decimal_pair_1x1, quick, 8, 1, 1);
 c20_decimal_pair!(c20_decimal_pair_2x2, quick, 8, 2, 2);
 c20_decimal_pair!(c20_decimal_pair_3x2, thorough, 8, 3, 2);
+
+/// Long operands at the machine-word boundaries: a concrete digit prefix (instance) followed by
+/// TAIL symbolic digits, compared with a second operand built the same way. Values are compared
+/// through a 128-bit reference (at most 38 digits).
+fn decimal_boundary<const TA: usize, const TB: usize>(pa: &[u8], pb: &[u8]) {
+    let ta = sym_ascii::<TA>();
+    let tb = sym_ascii::<TB>();
+    let mut a = [0u8; 24];
+    let mut b = [0u8; 24];
+    let (la, lb) = (pa.len() + TA, pb.len() + TB);
+    let mut i = 0;
+    while i < pa.len() { a[i] = pa[i]; i += 1; }
+    i = 0;
+    while i < TA { assume(ta[i] >= b'0' && ta[i] <= b'9'); a[pa.len() + i] = ta[i]; i += 1; }
+    i = 0;
+    while i < pb.len() { b[i] = pb[i]; i += 1; }
+    i = 0;
+    while i < TB { assume(tb[i] >= b'0' && tb[i] <= b'9'); b[pb.len() + i] = tb[i]; i += 1; }
+    let mut xa: u128 = 0;
+    let mut xb: u128 = 0;
+    i = 0;
+    while i < la { xa = xa * 10 + (a[i] - b'0') as u128; i += 1; }
+    i = 0;
+    while i < lb { xb = xb * 10 + (b[i] - b'0') as u128; i += 1; }
+    let an: bool = vany();
+    let bn: bool = vany();
+    let sa = unsafe { core::str::from_utf8_unchecked(&a[..la]) };
+    let sb = unsafe { core::str::from_utf8_unchecked(&b[..lb]) };
+    let got = decimal_strcmp_with_sign(sa, an, sb, bn);
+    let want = match (an && xa != 0, bn && xb != 0) {
+        (true, false) => Ordering::Less,
+        (false, true) => Ordering::Greater,
+        (false, false) => xa.cmp(&xb),
+        (true, true) => xb.cmp(&xa),
+    };
+    assert!(got == want, "numeric comparator disagrees with numeric value order");
+    let got_real = realnum_strcmp_with_sign(sa, an, sb, bn);
+    assert!(got_real == want, "real-number comparator disagrees on integer operands");
+    zcover!(xa > u64::MAX as u128, "operand above u64::MAX");
+    zcover!(want == Ordering::Less, "less reached");
+}
+macro_rules! c20_decimal_boundary {
+    ($name:ident, $tier:ident, $unwind:literal, $ta:literal, $tb:literal, $pa:expr, $pb:expr) => {
+        zv_harness! {
+            name: $name,
+            prop: "C20",
+            tier: $tier,
+            unwind: $unwind,
+            stubs: [alloc::fmt::format => crate::common::stubs::fmt_format],
+            targets: "string::numeric_compare::{decimal_strcmp_with_sign, realnum_strcmp_with_sign, compare_decimal_magnitude}",
+            bounds: "operand A = concrete digit prefix of the instance + TA symbolic digits, operand B likewise (prefix may be empty); prefixes sit at the u32/u64 boundaries (4294967295 / 18446744073709551615); symbolic sign flags",
+            oracle: "result == order of the exact values (128-bit reference), -0 == +0",
+            body: { decimal_boundary::<$ta, $tb>($pa, $pb) }
+        }
+    };
+}
+c20_decimal_boundary!(c20_decimal_u64max_20x1, quick, 26, 2, 1, b"184467440737095516", b"");
+c20_decimal_boundary!(c20_decimal_u64max_20x20, quick, 26, 1, 1, b"1844674407370955161", b"1844674407370955161");
+c20_decimal_boundary!(c20_decimal_u32max_10x2, quick, 26, 2, 2, b"42949672", b"");
+c20_decimal_boundary!(c20_decimal_21x20, thorough, 26, 2, 2, b"1844674407370955161", b"184467440737095516");
